@@ -11,7 +11,7 @@ Space   : (a) every labelled graph on n <= 3 (quick) / n <= 4 (thorough) points:
 Ops     : with_labels (every non-empty label subset: original order, every permuted order, bare string),
           without_labels (every subset incl. all, reversed request, bare string), get_label, add_label (new name
           and every existing name x every index subset; list and ndarray), remove_label, each also with an
-          unknown label; thorough chains them (depth 2 on the n <= 3 roots with the path / complete edge set).
+          unknown label; thorough chains them (depth 2 on every variant A root with n <= 3).
           Labellers: every size (exactly one accepted, every other -> LabellingError), pure re-indexing, every
           output point labelled, commutation with an affine and a non-linear map, mapping dictionary, input
           untouched, and the `labeller` convenience wrapper.
@@ -62,9 +62,6 @@ E4 = collections.OrderedDict(
         ("complete", 0b111111),
     ]
 )
-
-
-E4_THREE = ("empty", "path-2-0-3-1", "cycle-0-1-2-3")  # edge sets used with the 2161 three-label families of n = 4
 
 
 def _pairs(n):
@@ -305,11 +302,11 @@ class C15(Check):
         """("g", n, masks, edge bits, variant, depth bound of this root).
 
         quick   : n <= 3; variant A with every edge set, variant B with the path; depth 1; the sweep repeats all of it.
-        thorough: n <= 3: both variants with every edge set, variant A with the path / the complete graph explored
-                  to depth 2; n = 4 (depth 1): 1-2 label families x 9 stated edge sets (A) + path (B), 3-label
-                  families x 3 stated edge sets (A) + path (B).
-                  sweep (16 interpreters): n <= 3: A with empty / path / complete, B with the path; n = 4: the
-                  1-2 label families with one edge set per variant.
+        thorough: n <= 3: both variants with every edge set, variant A explored to depth 2;
+                  n = 4 (depth 1): 1-2 label families x all 64 edge sets (A) + path (B), 3-label families x the 9
+                  edge sets of E4 (A) + path (B).
+                  sweep (16 interpreters, depth 1): n <= 3: A with empty / path / complete, B with the path;
+                  n = 4: the 1-2 label families with one edge set per variant.
         """
         quick = self.tier == "quick"
         out = []
@@ -327,13 +324,13 @@ class C15(Check):
                     else:
                         ebits_a, ebits_b = every, every
                 elif len(fam) <= 2:
-                    ebits_a, ebits_b = ([E4[E4_THREE[1]]] if sweep else list(E4.values())), [path]
+                    ebits_a, ebits_b = ([E4["path-2-0-3-1"]] if sweep else every), [path]
                 elif not sweep:
-                    ebits_a, ebits_b = [E4[k] for k in E4_THREE], [path]
+                    ebits_a, ebits_b = list(E4.values()), [path]
                 else:
                     ebits_a, ebits_b = [], []
                 for eb in ebits_a:
-                    deep = (not quick) and n <= 3 and eb in (path, complete)
+                    deep = (not quick) and (not sweep) and n <= 3
                     out.append(("g", n, fam, eb, "A", 2 if deep else 1))
                 if len(fam) >= 2:
                     for eb in ebits_b:
@@ -899,8 +896,8 @@ class C15(Check):
     def assumptions(self):
         return [
             "labelled graphs with more than %d points or more than 3 initial labels (4-5 after add_label) are not built" % (3 if self.tier == "quick" else 4),
-            "n = 4 (thorough): 1-2 label families x 9 stated edge sets, 3-label families x 3 stated edge sets, depth 1; n <= 3: every edge set",
-            "depth 2 (thorough) chains operations on the variant A roots with n <= 3 whose edge set is the path or the complete graph; deeper chains are not explored",
+            "n = 4 (thorough): 1-2 label families x every edge set, 3-label families x the 9 stated edge sets (E4), depth 1; n <= 3: every edge set",
+            "depth 2 (thorough) chains operations on all variant A roots with n <= 3; deeper chains are not explored",
             "[interp] a permuted with_labels request must give the right content deterministically; its label order is not judged",
             "[interp] without_labels ignoring an unknown label, and any request that selects no point raising, are accepted",
             "add_label with an existing name: the mask is replaced in place, refused (ValueError) iff a point would be left without a label (D27, fixed)",
